@@ -319,6 +319,9 @@ func (x *Exec) applyContract(s *State, con *Contract, names []string, args []Val
 				vars[n] = v
 			}
 			for _, c := range con.Ensures {
+				if c.Local {
+					continue
+				}
 				post.assumeClause(c)
 			}
 			for _, c := range con.Assumed {
@@ -442,6 +445,24 @@ func (x *Exec) calleeModKeys(s *State, in ssa.CallInstruction) []string {
 			return []string{"*"}
 		}
 	}
+	if key == "github.com/jrhy/mast.(*Mast).DiffIter" || key == "github.com/jrhy/mast.(*Mast).DiffLinks" {
+		// the effect of the iterator is the effect of its callback
+		if mc, ok := c.Args[len(c.Args)-1].(*ssa.MakeClosure); ok {
+			if cf, ok := mc.Fn.(*ssa.Function); ok {
+				if ccon := x.v.db.Funcs[funcKey(cf)]; ccon != nil {
+					var pt []types.Type
+					for _, fv := range cf.FreeVars {
+						pt = append(pt, fv.Type())
+					}
+					for _, p := range cf.Params {
+						pt = append(pt, p.Type())
+					}
+					return x.contractModKeys(s, ccon, x.paramNames(cf, nil, funcKey(cf)), pt)
+				}
+			}
+		}
+		return []string{"*"}
+	}
 	if mk, ok := modelModKeys[key]; ok {
 		return mk(x, s)
 	}
@@ -463,7 +484,6 @@ func (x *Exec) calleeModKeys(s *State, in ssa.CallInstruction) []string {
 		sig = c.Signature()
 	}
 	names := x.paramNames(fn, c, key)
-	vars := map[string]Value{}
 	var ptypes []types.Type
 	if fn != nil {
 		for _, fv := range fn.FreeVars {
@@ -480,6 +500,16 @@ func (x *Exec) calleeModKeys(s *State, in ssa.CallInstruction) []string {
 	for i := 0; i < sig.Params().Len(); i++ {
 		ptypes = append(ptypes, sig.Params().At(i).Type())
 	}
+	return x.contractModKeys(s, con, names, ptypes)
+}
+
+// contractModKeys evaluates a modifies clause with fresh symbolic arguments to
+// learn which heap keys it can touch.
+func (x *Exec) contractModKeys(s *State, con *Contract, names []string, ptypes []types.Type) []string {
+	if len(con.Modifies) == 0 {
+		return nil
+	}
+	vars := map[string]Value{}
 	tmp := s.clone()
 	for i, n := range names {
 		if i < len(ptypes) {
